@@ -1145,10 +1145,7 @@ func (dsc *dataStoreCommand) dictScanUnlocked(data *redisDict, cursor uint32, pa
 	shift := 32 - bitPosition(highBit)
 	mask := highBit - 1
 
-	var pat []rune
-	if pattern != "" {
-		pat = []rune(pattern)
-	}
+	pat := []rune(pattern)
 
 	cursor &= mask
 	for count > 0 {
